@@ -263,3 +263,10 @@ Fixpoint vs_att_loop (rest : list vattr) (findex attrindex a_index : Z) : option
   end.
 Definition vs_getattdatainfo_entry (alist : list vattr) (findex attrindex : Z) : option vattr :=
   if attrindex <? 0 then None else vs_att_loop alist findex attrindex (-1).
+
+(* ---- hfile.c HIsync: flush of a file whose DD caching is on -- two independent steps (FmtProofs pins both as plain
+        "if", neither an "else" of the other): write the dirty DD blocks, extend the file to the reserved end -------- *)
+Definition extend_file (img : image) (f_end : Z) : image := img ++ repeat 0 (Z.to_nat (f_end - zlen img)).
+Definition hi_sync (img : image) (bl : list ddblock) (f_end : Z) (ddlist_dirty end_dirty : bool) : image :=
+  let img1 := if ddlist_dirty then sync_blocks img bl else img in
+  if end_dirty then extend_file img1 f_end else img1.
